@@ -51,16 +51,10 @@ RunResult execThreads(const Plan& plan)
     RunResult out;
     const int n = static_cast<int>(std::min<int64_t>(std::max<int64_t>(1, plan.cfgGet("nthreads", 2)), 4));
     std::vector<Plan> subs = splitThreads(plan, n);
-    // reference: every workload alone
+    // The threaded phase comes FIRST, on cold process state (the worker forks a child per run): lazily initialised or
+    // grow-on-demand statics are then first touched concurrently, as they would be in production. The reference
+    // executions (every workload alone) follow afterwards.
     std::vector<uint64_t> solo(static_cast<size_t>(n));
-    for (int t = 0; t < n; ++t)
-    {
-        RunResult r = execPlan(subs[static_cast<size_t>(t)]);
-        solo[static_cast<size_t>(t)] = r.eventHash;
-        out.apiCalls += r.apiCalls;
-        out.deliveries += r.deliveries;
-        out.simTimeUs += r.simTimeUs;
-    }
     std::vector<RunResult> res(static_cast<size_t>(n));
     std::vector<std::function<void()>> bodies;
     for (int t = 0; t < n; ++t)
@@ -81,12 +75,7 @@ RunResult execThreads(const Plan& plan)
         cfg.useExplicit = true;
     std::sort(cfg.explicitSwitches.begin(), cfg.explicitSwitches.end());
     if (cfg.mode == 1 && !cfg.useExplicit)
-    {
-        uint64_t horizon = 0;
-        for (int t = 0; t < n; ++t)
-            horizon += sched::countYieldPoints([&subs, t] { execPlan(subs[static_cast<size_t>(t)]); });
-        cfg.horizon = horizon;
-    }
+        cfg.horizon = static_cast<uint64_t>(plan.cfgGet("horizon", 60000));  // (counting by a dry run would warm the process state)
     sched::Report rep = sched::runThreads(cfg, bodies);
     g_lastSwitchLog = rep.switchLog;
     out.interleaveHash = rep.scheduleHash;
@@ -121,6 +110,14 @@ RunResult execThreads(const Plan& plan)
         out.probes["free-running-threads"] += 1;
     }
 #endif
+    for (int t = 0; t < n; ++t)
+    {
+        RunResult r = execPlan(subs[static_cast<size_t>(t)]);
+        solo[static_cast<size_t>(t)] = r.eventHash;
+        out.apiCalls += r.apiCalls;
+        out.deliveries += r.deliveries;
+        out.simTimeUs += r.simTimeUs;
+    }
     out.eventHash = 0xC19;
     for (int t = 0; t < n; ++t)
     {
